@@ -20,15 +20,15 @@ func init() {
 }
 
 type storeRoles struct {
-	p                         *ir.Prog
-	dbFlush                   *types.Func // chain.DB.Flush (interface)
-	dbsFlush                  *ir.Func    // (*DBStore).Flush
-	apply, revert             *ir.Func    // (*DBStore).ApplyBlock / RevertBlock
-	bucketWrites              []*types.Func
-	writers                   map[*types.Func]bool // DBStore methods that transitively write buckets
-	flushPoints               map[*types.Func]bool // DBStore.Flush and DBStore methods that transitively call it (except apply/revert)
-	constructors              map[*ir.Func]bool
-	methods                   []*ir.Func
+	p             *ir.Prog
+	dbFlush       *types.Func // chain.DB.Flush (interface)
+	dbsFlush      *ir.Func    // (*DBStore).Flush
+	apply, revert *ir.Func    // (*DBStore).ApplyBlock / RevertBlock
+	bucketWrites  []*types.Func
+	writers       map[*types.Func]bool // DBStore methods that transitively write buckets
+	flushPoints   map[*types.Func]bool // DBStore.Flush and DBStore methods that transitively call it (except apply/revert)
+	constructors  map[*ir.Func]bool
+	methods       []*ir.Func
 }
 
 func getStoreRoles(p *ir.Prog) *storeRoles {
